@@ -66,6 +66,10 @@ class C07(Check):
             return {'mode': 'conn', 'spec': {'pops': pops, 'conns': conns}, 'ops': [],
                     'cfg': {'dt': rng.choice([1e-3, 0.01]), 'steps': rng.randint(8, 30), 'vectorize': rng.random() < 0.8}}
         spec = models.gen_aliased(rng, build=rng.choice(['python', 'python', 'yaml']), readouts=0.4 if rng.random() < 0.35 else 0.0)
+        if stratum in ('S-update_var', 'S-mixed', 'S-apply-values', 'S-compile-between') and rng.random() < 0.12:
+            # node templates of two structurally identical operators under different names (a second node template with the
+            # same structure under other operator names): each keeps its own values
+            spec = models.gen_twinops(rng)
         if stratum == 'S-big':
             # sizes toy models never reach: one vectorized group of 10-16 nodes, wired as ring / shuffled chain / fan-out /
             # converging pattern with distinct weights (below the matrix_sparseness threshold the compiler indexes instead of
@@ -136,6 +140,9 @@ class C07(Check):
             elif k == 'adapt':
                 ops.append({'op': 'adapt', 'by_path': rng.random() < 0.6, 'node': rng.choice(have), 'opn': opn, 'var': var,
                             'val': val(), 'on': on})
+                if rng.random() < 0.3:
+                    # a parameter sweep (grid_search) over the same parameter, its grid a DataFrame with row labels in any order
+                    ops[-1]['grid'] = {'labels': rng.sample(range(0, 6), 3), 'vals': [val(), val() + 0.5, val() + 1.25]}
             elif k == 'one':
                 ops.append({'op': 'update_var', 'on': on, 'node_vars': {f'{rng.choice(have)}/{opn}/{var}': val()}})
             elif k in ('all', 'arr'):
@@ -266,6 +273,49 @@ class C07(Check):
                 return True
         return False
 
+    @staticmethod
+    def _grid_sweep(src, op, ref, bump):
+        """grid_search over a labelled grid: the circuit reported under label l (param map and result columns) is the one
+        parametrised with the grid's row l - compared with adapt_circuit(row l) simulated on its own"""
+        import numpy as np, pandas as pd
+        from pyrates import grid_search
+        from pyrates.utility import adapt_circuit
+        lib = ref.inst[(op['node'], op['opn'])]['lib']
+        out = f"{op['node']}/{op['opn']}/{models.LIB[lib]['state'][0]}"
+        pmap = {'k0': {'vars': [f"{op['opn']}/{op['var']}"], 'nodes': [op['node']]}}
+        labels, vals = list(op['grid']['labels']), [float(v) for v in op['grid']['vals']]
+        sim = dict(step_size=1e-3, simulation_time=6e-3, outputs={'o': out}, verbose=False)
+        try:
+            R, pm = grid_search(src, pd.DataFrame({'k0': vals}, index=labels), pmap, **sim)
+        except Exception as e:
+            bump('grid_refused')
+            return None
+        bump('grid_sweep')
+        for l, v in zip(labels, vals):
+            rows = [i for i in pm.index if str(i).endswith(f'_{l}')]
+            cols = [c_ for c_ in R.columns if str(c_[1]).endswith(f'_{l}')]
+            if len(rows) != 1 or not cols:
+                bump('grid_unreadable')
+                return None
+            if float(pm.loc[rows[0], 'k0']) != v:
+                return {'law': 'L-reach', 'cls': 'silent', 'key': 'grid-map',
+                        'detail': f'grid_search: parameter map lists {pm.loc[rows[0], "k0"]!r} for {rows[0]}, grid row {l} holds {v}'}
+            try:
+                D = adapt_circuit(src, {'k0': v}, pmap).run(**sim)
+            except Exception:
+                bump('grid_unreadable')
+                return None
+            a, b = np.asarray(R[cols].values, dtype=float), np.asarray(D.values, dtype=float)
+            if a.shape != b.shape:
+                bump('grid_unreadable')
+                return None
+            if not np.allclose(a, b, rtol=1e-9, atol=1e-12):
+                return {'law': 'L-reach', 'cls': 'silent', 'key': 'grid-row',
+                        'detail': f'grid_search over {op["node"]}/{op["opn"]}/{op["var"]} with grid rows {dict(zip(labels, vals))}: '
+                                  f'circuit {rows[0]} evolves as {a[:3].ravel().tolist()}, the circuit adapted to row {l} '
+                                  f'(value {v}) on its own as {b[:3].ravel().tolist()}'}
+        return None
+
     def execute(self, trace):
         import warnings
         warnings.filterwarnings('ignore')
@@ -387,6 +437,11 @@ class C07(Check):
                                               'detail': f'op #{k} adapt_circuit raised {type(e).__name__}: {e}'})
                     break
                 bump('adapt')
+                if op.get('grid'):
+                    v_ = self._grid_sweep(src, op, refs[on], bump)
+                    if v_:
+                        res['violations'].append(v_)
+                        break
                 n_over += 1
                 tmp = copy.deepcopy(refs[on])
                 tmp.set_value(op['node'], op['opn'], op['var'], float(op['val']))
@@ -598,6 +653,10 @@ class C07(Check):
             return {'law': 'L-op', 'cls': 'loud', 'key': 'compile_values',
                     'detail': f'{label} raised {sc.get("exc")}: {sc.get("msg")}'}
         vr = obs.get('vec_run', {})
+        if vr.get('status') == 'raised' and sc.get('status') == 'ok':
+            # the same model compiles node by node but its vectorized run raises
+            return {'law': 'L-op', 'cls': 'loud', 'key': 'vectorized-run-raised',
+                    'detail': f'{label}: the non-vectorized compile succeeded, the vectorized run raised {vr.get("exc")}: {vr.get("msg")}'}
         if vr.get('status') == 'ok' and sc.get('status') == 'ok':
             traj = models.ref_euler(net, 1e-3, 5)
             for name, col in zip(vr['columns'], vr['values']):
